@@ -270,7 +270,7 @@ _SEEN = {}
 class Bisim:
     """cfg: name (obligation prefix), driver (list of token kinds), throw_classes, max_steps"""
 
-    def __init__(self, I, name, driver=("send", "throw", "close", "throw_genexit"), throw_classes=None,
+    def __init__(self, I, name, driver=("send", "send_falsy", "throw", "close", "throw_genexit"), throw_classes=None,
                  value_factory=None, msg_factory=None, max_steps=60, allow_reyield=True, exc_classes=None,
                  canon_exclude=(), replay=None, first_send_none=True, cfg=None):
         self.I = I
@@ -393,6 +393,11 @@ class Bisim:
                     v, label = Opaque(w.fresh("v"), {"token": "sent"}), "v"
                 tok = ("send", v)
                 self.script.append(f"send({label})")
+            elif kind == "send_falsy":
+                # a response that is falsy (None, 0, {}, '' ...): identity token whose truth value is False
+                v = Opaque(w.fresh("vf"), {"token": "sentF", "truth": False, "isinstance_default": False})
+                tok = ("send", v)
+                self.script.append("send(falsy)")
             elif kind == "throw":
                 cls = self.throw_classes[0] if len(self.throw_classes) == 1 else w.choose(self.throw_classes, "thrown class")
                 e = Obj(cls, {"args": (), "__cause__": None}, label=w.fresh("thrown"))
